@@ -243,6 +243,11 @@ func (c19) Gen(r *simrt.Rand, idx int, tier string) *Case {
 	case "fail-syntax":
 		c.Cmd = []string{"check", "print", "balance"}[r.Intn(3)]
 		c.N = r.Intn(1 << 20)
+		if r.P(0.4) {
+			// two stages fail in one run: one file parses but cannot be converted into the
+			// model, another one has a syntax error at its very end
+			c.Sub = "fail-double"
+		}
 	}
 	n := 6
 	if tier == "thorough" {
@@ -303,6 +308,16 @@ func (c19) Eval(c *Case) (*Violation, bool) {
 		wantFail = victim
 		wantAlt = garbageMarks[(c.N/7)%len(garbage)]
 	}
+	if c.Sub == "fail-double" {
+		files = copyFiles(files)
+		v1 := names[c.N%len(names)]
+		v2 := names[(c.N/5)%len(names)]
+		if v1 == v2 {
+			v2 = main
+		}
+		files[v1] = []string{"2020-01-01 open assets:lower\n", "2020-01-01 open Asset:Savings\n", "2020-01-01 \"x\"\nAssets:A $what 1 CHF\n"}[(c.N/11)%3] + "\n" + files[v1]
+		files[v2] = files[v2] + "\n" + []string{"foo bar\n", "2020-13-45 open Assets:Oops\n", "include \"\n"}[(c.N/13)%3]
+	}
 	ref := RefCheck(c.J)
 	var expCensus []string
 	exact := true
@@ -361,7 +376,7 @@ func (c19) Eval(c *Case) (*Violation, bool) {
 			}
 		case "pipeline":
 			// success or clean failure, identical status under all schedules (checked above)
-		case "fail-assert", "fail-price", "fail-include", "fail-syntax":
+		case "fail-assert", "fail-price", "fail-include", "fail-syntax", "fail-double":
 			if c.Sub == "fail-assert" && ref.OK {
 				return nil, true
 			}
